@@ -44,9 +44,10 @@ def make_double(CommsObject, name, log):
             self.arm_fault = False
 
         def sendData(self, data):
+            # the attempt is what the router owes each rule; like UDPObject, a closed endpoint reports the send as failed
             log.ev.append(("send", name, data))
-            self.last_tx_success = True
-            return True
+            self.last_tx_success = bool(self.open)
+            return bool(self.open)
 
         def getData(self):
             idx = log.recv_counter
